@@ -672,37 +672,87 @@ def view_list():
   return views
 
 
-def guarded_views(run, repo, func, *args, **kw):
-  """views(), with a rule function that cannot decide on any view recorded as an analysis error of
-  that rule function only (the other rules of the property still report their verdicts)."""
+class _Pending(object):
+  def __init__(self, func, args, kw):
+    self.func, self.args, self.kw = func, args, kw
+    self.tried = []        # [(view, buf, err)] in the order tried
+    self.chosen = None     # index into tried of the outcome to report
+
+  def counts(self, i):
+    out = {}
+    for (kind, a, k) in self.tried[i][1].log:
+      if kind == "ob":
+        out[a[0]] = out.get(a[0], 0) + 1
+    return out
+
+
+def _evaluate(run, repo, v, func, args, kw):
+  buf = _BufRun(run)
+  err = None
   try:
-    views(run, repo, func, *args, **kw)
+    func(buf, world_for(repo, v), *args, **kw)
   except AnalysisError as e:
-    run.errors.append((getattr(func, "__name__", "?"), str(e)))
+    err = e
+  return buf, err
 
 
-def views(run, repo, func, *args, **kw):
+def _passes(buf, err):
+  return err is None and not buf.bad and not buf.errors
+
+
+def guarded_views(run, repo, func, *args, **kw):
   """Evaluate rule function func(run, world, *args) on each view of the sources until one
   discharges every obligation. All views are behaviour-preserving rewritings of the same code, so
   a discharge on any of them stands for the code as written; when none discharges, the outcome on
-  the first (plain) view is reported."""
-  first = None
+  the first (plain) view is reported. Outcomes are committed by finish_views(), which first gives
+  a rule that fell short of its floor the chance to be read through a view that sees more of the
+  mechanism (e.g. through an extracted helper)."""
+  pend = _Pending(func, args, kw)
+  run.__dict__.setdefault("_c_pending", []).append(pend)
   for v in view_list():
-    buf = _BufRun(run)
-    err = None
-    try:
-      func(buf, world_for(repo, v), *args, **kw)
-    except AnalysisError as e:
-      err = e
-    if err is None and not buf.bad and not buf.errors:
-      buf.commit()
+    buf, err = _evaluate(run, repo, v, func, args, kw)
+    pend.tried.append((v, buf, err))
+    if _passes(buf, err):
+      pend.chosen = len(pend.tried) - 1
       return
-    if first is None:
-      first = (buf, err)
-  buf, err = first
-  buf.commit()
-  if err is not None:
-    raise err
+  pend.chosen = 0
+
+
+def finish_views(run, repo):
+  pending = run.__dict__.pop("_c_pending", [])
+  # floors of the rules, as registered so far or by the chosen outcomes
+  floors = {rid: r["floor"] for rid, r in run.rules.items() if r.get("floor") is not None}
+  have = {rid: r["instances"] for rid, r in run.rules.items()}
+  for p in pending:
+    for (kind, a, k) in p.tried[p.chosen][1].log:
+      if kind == "rule" and a[2] is not None:
+        floors[a[0]] = a[2]
+    for rid, n in p.counts(p.chosen).items():
+      have[rid] = have.get(rid, 0) + n
+  short_rules = {rid for rid, fl in floors.items() if have.get(rid, 0) < fl}
+  if short_rules:
+    views = view_list()
+    for p in pending:
+      if not _passes(*p.tried[p.chosen][1:]):
+        continue
+      mine = set(p.counts(p.chosen)) | {a[0] for (kind, a, k) in p.tried[p.chosen][1].log
+                                        if kind == "rule"}
+      if not (mine & short_rules):
+        continue
+      best, best_n = p.chosen, sum(p.counts(p.chosen).get(r, 0) for r in short_rules)
+      for v in views[len(p.tried):]:
+        buf, err = _evaluate(run, repo, v, p.func, p.args, p.kw)
+        p.tried.append((v, buf, err))
+        if _passes(buf, err):
+          n = sum(p.counts(len(p.tried) - 1).get(r, 0) for r in short_rules)
+          if n > best_n:
+            best, best_n = len(p.tried) - 1, n
+      p.chosen = best
+  for p in pending:
+    (v, buf, err) = p.tried[p.chosen]
+    buf.commit()
+    if err is not None:
+      run.errors.append((getattr(p.func, "__name__", "?"), str(err)))
 
 
 # ---------------------------------------------------------------------------------------------
@@ -844,8 +894,7 @@ class Elem(object):
     self.site = site
 
 
-def _enclosing_loops(fnode, target, stop_block_of=None):
-  loops = []
+def _enclosing_loops(fnode, target):
   def go(stmts, acc):
     for s in stmts:
       if s is target or any(x is target for x in ast.walk(s)):
@@ -864,7 +913,7 @@ def _enclosing_loops(fnode, target, stop_block_of=None):
             return go(h.body, acc)
         return acc
     return acc
-  return go(fnode.body, loops)
+  return go(fnode.body, [])
 
 
 def elements(fn, flow, expr, nid=None):
@@ -898,9 +947,6 @@ def elements(fn, flow, expr, nid=None):
       if isinstance(st, ast.Assign) and st.value is r.node and len(st.targets) == 1 and \
           isinstance(st.targets[0], ast.Name):
         owners.add((st.targets[0].id, r.nid))
-      elif isinstance(r.node, ast.Call) or (isinstance(r.node, (ast.List, ast.Set)) and
-                                            not r.node.elts):
-        pass        # an anonymous container: nothing can be appended to it by name
   for (X, defn) in sorted(owners):
     for nmut in sorted(flow.du.muts.get(X, set())):
       if nmut not in flow.cfg.reach_after({defn}):
@@ -943,3 +989,57 @@ def _synth_within(t, container):
   `container` when one of its parts does."""
   ids = {id(x) for x in ast.walk(container) if isinstance(x, ast.expr)}
   return any(id(y) in ids for y in ast.walk(t) if isinstance(y, ast.expr))
+
+
+def inline(flow, expr, nid=None, stop=(), depth=6):
+  """Copy of `expr` in which every local name that has exactly one reaching binding at the point
+  of evaluation, a plain `name = value` assignment, is replaced by that value (recursively).
+  Flow-sensitive counterpart of DefUse.inline: a name bound several times is still replaced
+  where only one of its bindings can reach. Names in `stop` and names bound by comprehensions
+  are kept."""
+  import copy
+  if nid is None:
+    for x in ast.walk(expr):          # synthesised guards are not CFG expressions themselves
+      if id(x) in flow._node_of:
+        nid = flow._node_of[id(x)]
+        break
+    if nid is None:
+      return copy.deepcopy(expr)
+
+  def value_of(name_node, at):
+    if name_node.id in stop or not isinstance(name_node.ctx, ast.Load):
+      return None
+    if flow._comp_binding(name_node) is not None or name_node.id not in flow.defs:
+      return None
+    rdefs, from_entry = flow.reaching(name_node.id, at)
+    if not rdefs and not from_entry:
+      # code only reachable exceptionally (an except handler): fall back to "bound once"
+      rdefs = set(flow.defs.get(name_node.id, ()))
+      from_entry = name_node.id in flow.params
+    if from_entry or len(rdefs) != 1:
+      return None
+    dn = next(iter(rdefs))
+    s = flow.cfg.nodes[dn].stmt
+    if flow.cfg.nodes[dn].kind == "stmt" and isinstance(s, ast.Assign) and \
+        len(s.targets) == 1 and isinstance(s.targets[0], ast.Name) and \
+        s.targets[0].id == name_node.id:
+      return s.value, dn
+    return None
+
+  def go(e, at, d):
+    if isinstance(e, ast.Name):
+      if d > 0:
+        got = value_of(e, at)
+        if got is not None:
+          return go(got[0], got[1], d - 1)
+      return copy.deepcopy(e)
+    if not isinstance(e, ast.AST):
+      return e
+    new = copy.copy(e)
+    for fld, val in ast.iter_fields(e):
+      if isinstance(val, list):
+        setattr(new, fld, [go(x, at, d) if isinstance(x, ast.AST) else x for x in val])
+      elif isinstance(val, ast.AST):
+        setattr(new, fld, go(val, at, d))
+    return new
+  return go(expr, nid, depth)
